@@ -1540,8 +1540,11 @@ class PreviewTree:
         try:
             return self._transform._new_executability[trans_id]
         except KeyError:
+            tree_path = self._transform.tree_path(trans_id)
+            if tree_path is None:
+                return False
             try:
-                return self._transform._tree.is_executable(path)
+                return self._transform._tree.is_executable(tree_path)
             except FileNotFoundError:
                 return False
             except NoSuchFile:
@@ -1562,7 +1565,10 @@ class PreviewTree:
         elif trans_id in self._transform._removed_contents:
             return False
         else:
-            return self._transform._tree.has_filename(path)
+            tree_path = self._transform.tree_path(trans_id)
+            if tree_path is None:
+                return False
+            return self._transform._tree.has_filename(tree_path)
 
     def get_file_sha1(self, path, stat_value=None):
         """Get the SHA1 hash of a file's contents.
@@ -1582,7 +1588,10 @@ class PreviewTree:
             raise NoSuchFile(path)
         kind = self._transform._new_contents.get(trans_id)
         if kind is None:
-            return self._transform._tree.get_file_sha1(path)
+            tree_path = self._transform.tree_path(trans_id)
+            if tree_path is None:
+                raise NoSuchFile(path)
+            return self._transform._tree.get_file_sha1(tree_path)
         if kind == "file":
             with self.get_file(path) as fileobj:
                 return osutils.sha_file(fileobj)
@@ -1605,7 +1614,10 @@ class PreviewTree:
             raise NoSuchFile(path)
         kind = self._transform._new_contents.get(trans_id)
         if kind is None:
-            return self._transform._tree.get_file_verifier(path)
+            tree_path = self._transform.tree_path(trans_id)
+            if tree_path is None:
+                raise NoSuchFile(path)
+            return self._transform._tree.get_file_verifier(tree_path)
         if kind == "file":
             with self.get_file(path) as fileobj:
                 return ("SHA1", osutils.sha_file(fileobj))
@@ -1645,7 +1657,10 @@ class PreviewTree:
         try:
             return self._transform._new_contents[trans_id]
         except KeyError:
-            return self._transform._tree.stored_kind(path)
+            tree_path = self._transform.tree_path(trans_id)
+            if tree_path is None:
+                raise NoSuchFile(path) from None
+            return self._transform._tree.stored_kind(tree_path)
 
     def _get_repository(self):
         repo = getattr(self._transform._tree, "_repository", None)
@@ -1670,10 +1685,10 @@ class PreviewTree:
             return None
         if trans_id in self._transform._new_contents:
             return self._stat_limbo_file(trans_id).st_size
-        if self.kind(path) == "file":
-            return self._transform._tree.get_file_size(path)
-        else:
+        tree_path = self._transform.tree_path(trans_id)
+        if tree_path is None:
             return None
+        return self._transform._tree.get_file_size(tree_path)
 
     def get_reference_revision(self, path):
         """Get the reference revision for a tree reference.
